@@ -307,15 +307,78 @@ def run_worker_main(kind: str, scratch: str) -> dict:
         return {"backend": kind, "final": final, "stranded": stranded, "queue_end": app.broker.count_invocations(), "exc": exc}
 
 
+def run_lost_race(kind: str, scratch: str, which: str) -> dict:
+    """fault-free: a recovery run scans two stuck invocations; after it has marked the first, the (slow but live) owner of the
+    second moves on, so the second transition is refused.  The first must still be re-queued and finished."""
+    from pynenc import context, core_tasks
+    from pynenc.invocation.status import InvocationStatus as St
+    clock = VirtualClock()
+    with clock:
+        cw = CW(kind, scratch, clock)
+        try:
+            app, orch = cw.app, cw.app.orchestrator
+            t = app.task(tasks_c03.plain)
+            invs = [t(i) for i in range(2)]
+            ids = [i.invocation_id for i in invs]
+            for r in ("X", "S"):
+                cw.heartbeat(r)
+            got = [g.invocation_id for g in orch.get_invocations_to_run(2, cw.ctx("X"))]
+            assert sorted(got) == sorted(ids)
+            if which == "running":
+                for i in ids:
+                    orch.set_invocation_status(i, St.RUNNING, cw.ctx("X"))
+            clock.advance(max(LIMIT, DEAD_MIN * 60) + 5)
+            cw.heartbeat("S")
+            scan_name = "get_pending_invocations_for_recovery" if which == "pending" else "get_running_invocations_for_recovery"
+            real_scan = getattr(orch, scan_name)
+            order: list = []
+
+            def scan():
+                found = list(real_scan())
+                order.extend(str(x) for x in found)
+                for k, x in enumerate(found):
+                    if k == 1:
+                        # the owner of the second one is slow, not dead: it moves on right now
+                        orch.set_invocation_status(x, St.RUNNING if which == "pending" else St.SUCCESS, cw.ctx("X"))
+                        if which == "running":
+                            tasks_c03.DONE.append(str(x))
+                    yield x
+            setattr(orch, scan_name, scan)
+            context.set_current_app(app)
+            context.set_runner_context(app.app_id, cw.ctx("S"))
+            exc = None
+            try:
+                getattr(core_tasks, "recover_pending_invocations" if which == "pending" else "recover_running_invocations")()
+            except BaseException as ex:  # noqa: BLE001
+                exc = repr(ex)
+            delattr(orch, scan_name)
+            first = order[0] if order else ids[0]
+            after_run = cw.status(first)
+            queued = first in cw.w.queue()
+            # drain by the survivor (the first invocation only; the second is its live owner's business)
+            outs: list = []
+            for _ in range(2):
+                clock.advance(1.0)
+                cw.heartbeat("S")
+                cw.sched.spawn("S-run", cw.w.polling_runner("S", 2, outs, rounds=2))
+                cw.sched.run(lambda r, s: r[0], max_steps=5000)
+            final = cw.status(first)
+            stranded = not (final[0] in FINAL and first in tasks_c03.DONE)
+            return {"backend": kind, "which": which, "scanned": len(order), "recovery_exception": exc, "first_after_run": after_run,
+                    "first_queued_after_run": queued, "first_final": final, "stranded": stranded}
+        finally:
+            cw.close()
+
+
 EFF_NAME = {"EPop": "pop", "EPush": "push", "EBody": "body", "EOther": "other"}
 
 
 def model_queries(scenarios: dict[str, int]):
     """Coq expressions: per scenario the model program, and per crash point whether the canonical survivor schedule finishes"""
-    step = "(cstep gen_p_retry gen_p_reroute gen_p_kill_head gen_p_finish_ok gen_p_finish_err gen_pop_before_claim gen_poll_exhausted)"
+    step = "(cstep gen_p_retry gen_p_reroute gen_p_kill_head gen_p_finish_ok gen_p_finish_err gen_pop_before_claim gen_recovery_continues gen_poll_exhausted)"
     code = ("(fun e => match e with EPop => [0] | EPush => [1] | EBody => [2] | EOther => [3] | ETrans t => [4; status_code t] end)")
     prog = lambda r: (f"(map {code} ((if pops_at_start gen_pop_before_claim {r} then [EPop] else []) ++ "
-                      f"prog_of gen_p_retry gen_p_reroute gen_p_kill_head gen_p_finish_ok gen_p_finish_err gen_pop_before_claim gen_poll_exhausted {r}))")
+                      f"prog_of gen_p_retry gen_p_reroute gen_p_kill_head gen_p_finish_ok gen_p_finish_err gen_pop_before_claim gen_recovery_continues gen_poll_exhausted {r}))")
     flush = "; ".join(["LSStep"] * 10)
     rec = "; ".join(["LSStart RRecPending", "LSStep", "LSStep", "LSStep", "LSStart RRecRunning", "LSStep", "LSStep", "LSStep",
                      "LSStart RClaimRun"] + ["LSStep"] * 8)
@@ -454,6 +517,18 @@ def main(ctx: Ctx) -> int:
                                       {"kind": "crash-point", "backend": kind, "scenario": sc, "k": k, "seed": seed, "survivors": 1 + j % 2,
                                        "concurrent": True, "observed": out})
         ctx.notes["interleaved_runs"] = inter
+        # ---- 6. a recovery run that loses the race for its second invocation (fault-free)
+        for kind in ("mem", "sqlite"):
+            for which in ("pending", "running"):
+                out = run_lost_race(kind, scratch, which)
+                total += 1
+                ctx.notes.setdefault("lost_race", {})[f"{kind}:{which}"] = out
+                if out["stranded"] or out["scanned"] != 2:
+                    ctx.violation(f"strand:lost-race:{which}",
+                                  f"{kind}: recover_{which}_invocations scanned {out['scanned']} stuck invocations, marked the first, lost the race for the "
+                                  f"second (its owner moved on): the first is left {out['first_after_run']} (queued: {out['first_queued_after_run']}), "
+                                  f"finally {out['first_final']}; recovery raised {out['recovery_exception']} — without any crash",
+                                  {"kind": "lost-race", "backend": kind, "which": which, "observed": out})
         # ---- 5. the real worker loop of the persistent process runner on a queue [deferred, runnable] (fault-free)
         for kind in ("sqlite", "mem"):
             try:
@@ -489,6 +564,9 @@ def replay(ctx: Ctx, path: str) -> int:
     S.SQL_YIELD = False
     scratch = world.scratch_dir()
     try:
+        if rp.get("kind") == "lost-race":
+            print(json.dumps(run_lost_race(rp["backend"], scratch, rp["which"]), indent=1, default=str))
+            return 0
         if rp.get("kind") == "worker-main":
             print(json.dumps(run_worker_main(rp["backend"], scratch), indent=1, default=str))
             return 0
